@@ -73,6 +73,13 @@ def run(ctx):
                 bad.append(("mutation-after-save:%s" % x.nname.split("::")[-1], "index mutated after it was saved (two-step swap)", None))
             if not b.can_reach(x.bb, sv.bb):
                 bad.append(("mutation-not-saved:%s" % x.nname.split("::")[-1], "index mutation never reaches save", None))
+        nxs = loop_nexts(b, lambda L: has_origin(L, None, proj_contains=[".uid_plans"]))
+        nxs = [n_ for n_ in nxs if any(b.can_reach(n_.bb, x.bb) and b.can_reach(x.bb, n_.bb) for x in ret)]
+        if not nxs:
+            raise AnchorMissing("loop over batch.uid_plans around retire_uid_from_labels")
+        w_ = skipped_iteration(b, nxs[0], [x.bb for x in ret])
+        if w_:
+            bad.append(("uid-not-retired", "a uid of the batch can be left un-retired in its inputs while the output segment is registered for it (rows readable from both)", w_))
         for tgt, nm in ((wr, "segment_ids update"), (inv, "cache invalidation")):
             if not any(b.dominates_edge(e, tgt.bb) for e in sve):
                 bad.append(("publish-before-save:%s" % nm, "%s not dominated by a successful index save" % nm, None))
